@@ -8,22 +8,23 @@
 #include "scen_pub.h"
 #include "scen_shared.h"
 #include "scen_storage.h"
+#include "scen_signal.h"
 
 namespace hz {
-static const char *const class_names[] = {"future", "mutex", "queue", "limited_queue", "thread_pool", "scheduler", "publisher", "shared_future", "reusable_storage_mtsafe"};
+static const char *const class_names[] = {"future", "mutex", "queue", "limited_queue", "thread_pool", "scheduler", "publisher", "shared_future", "reusable_storage_mtsafe", "signal"};
 static const char *const counter_names[] = {"c0", "c1", "c2", "c3", "c4", "c5"};
 static const Info I = {
     "C03", 2, 61, 200000, true, false,
     "the first program byte selects a multi-threaded scenario {future: 1..2 resolvers x 1..3 waiters incl. polling ready() and late subscribers; mutex: 2..4 contenders; queue / limited_queue: producer and consumer threads; "
     "thread_pool: submissions against stop(); scheduler: thread and thread-pool mode with sleepers, cancellers, interval and destruction; publisher: publisher thread against subscriber threads; shared_future: resolver against copying/awaiting/dropping workers; "
-    "reusable_storage_mtsafe: two threads creating and finishing coroutines}; the rest of the program is that scenario's generated program; executed under ThreadSanitizer (clang++, halt on first report) on the virtual runtime, whose baton is invisible to TSan "
+    "reusable_storage_mtsafe: two threads creating and finishing coroutines; signal: histories with listeners subscribing from another thread}; the rest of the program is that scenario's generated program; executed under ThreadSanitizer (clang++, halt on first report) on the virtual runtime, whose baton is invisible to TSan "
     "(no happens-before edges of its own; atomic_thread_fence is modelled by __tsan_acquire on the atomics read since the last fence) with generated schedules and the 1-preemption sweep. "
     "Oracle: TSan data-race report + the scenario's own value/checksum oracle. Non-trivial = at least three threads existed and at least one context switch happened; "
     "distinct = hash(decoded program, executed switch trace).",
-    class_names, 9, counter_names, 6};
+    class_names, 10, counter_names, 6};
 const Info &info() { return I; }
 void run_case(Reader &r) {
-    unsigned sel = r.mod(9);
+    unsigned sel = r.mod(10);
     switch (sel) {
         case 0: scen_future::run(r, scen_future::M_C03); break;
         case 1: scen_mutex::run(r, scen_mutex::O_EXCLUSION); break;
@@ -33,13 +34,14 @@ void run_case(Reader &r) {
         case 5: { scen_sched::RunProg p = scen_sched::decode_run(r); if (p.mode == 0) p.mode = 1; scen_sched::run_run(p); } break;
         case 6: scen_pub::run_mt(scen_pub::decode_mt(r)); break;
         case 7: scen_shared::run(r); break;
-        default: scen_storage::run_mt(scen_storage::decode_mt(r)); break;
+        case 8: scen_storage::run_mt(scen_storage::decode_mt(r)); break;
+        default: c15::run(r); break;
     }
     set_class(sel);
     set_nontrivial(vrt::stats().threads > 2 && vrt::stats().switches > 0);
 }
 std::string describe(Reader &r) {
-    unsigned sel = r.mod(9);
+    unsigned sel = r.mod(10);
     switch (sel) {
         case 0: return "future: " + scen_future::describe(scen_future::decode(r, scen_future::M_C03));
         case 1: return "mutex: " + scen_mutex::describe(scen_mutex::decode(r));
@@ -49,7 +51,8 @@ std::string describe(Reader &r) {
         case 5: { scen_sched::RunProg p = scen_sched::decode_run(r); if (p.mode == 0) p.mode = 1; return "scheduler: " + scen_sched::describe_run(p); }
         case 6: return "publisher: " + scen_pub::describe_mt(scen_pub::decode_mt(r));
         case 7: return "shared_future: " + scen_shared::describe(scen_shared::decode(r));
-        default: return "storage: " + scen_storage::describe_mt(scen_storage::decode_mt(r));
+        case 8: return "storage: " + scen_storage::describe_mt(scen_storage::decode_mt(r));
+        default: return "signal: " + c15::describe(c15::decode(r));
     }
 }
 }
